@@ -274,7 +274,21 @@ def r4_units(ctx):
     ctx.check('R4.units', f'{site(init)} route list', nl == {f'{rp}.nodes_list': f"{rp}.nodes_list.split(' | ')", f'not {rp}.nodes_list': '[]'},
               key(init, 'route-list'),
               "the route list is not the cell split on ' | '", str(nl))
-    ctx.check('R4.units', f'{site(init)} disjoint from', dj is not None and len(dj) == 1 and f"{rp}.disjoint_from.split(' | ')" in dj.get('', ''),
+    # the split cell, kept whole when the cell is not empty (filtered comprehension, or `split if cell else []`, the split possibly
+    # held in a local)
+    from .common import resolved
+    idefs = local_defs(init.node)
+
+    def split_of(txt):
+        try:
+            e = resolved(idefs, ast.parse(txt, mode='eval').body)
+        except SyntaxError:
+            return False
+        return f"{rp}.disjoint_from.split(' | ')" in ast.unparse(e)
+    dj_ok = dj is not None and ((len(dj) == 1 and split_of(dj.get('', 'None'))) or
+                                (set(dj) == {f'{rp}.disjoint_from', f'not {rp}.disjoint_from'} and split_of(dj[f'{rp}.disjoint_from']) and
+                                 dj[f'not {rp}.disjoint_from'] == '[]'))
+    ctx.check('R4.units', f'{site(init)} disjoint from', dj_ok,
               key(init, 'disjoint'), "the 'disjoint from' cell is not split on ' | '", str(dj))
     ps = cls.getters.get('pathsync')
     txt = ast.unparse(ps.node) if ps else ''
